@@ -50,6 +50,7 @@ def lineAllowed (pkg line : String) : Bool :=
   | "ios" => harmless .ios (.lit line)
   | "cisco" => harmless .asa (.lit line) && harmless .ios (.lit line)
   | "linux" => harmless .linux (.lit line)
+  | "console" => line == "exit\n"   -- `Conn.Close`, what `CloseConnection` of ASA and IOS ends the session with
   | _ => false
 
 /-- a constant that reaches sink `k` from package `pkg`: what the specification says about it.
@@ -142,7 +143,7 @@ client method, an `exec`, a second place that writes to the expect connection) c
 is not in the list.  None is unclassified; the only method value is the TCP dialer of the HTTP
 transport. -/
 def ioExpected : List ((String × String × String) × Nat) := [
-  (("console", "(*github.com/tailscale/goexpect.GExpect).Send", "send"), 1),
+  (("console", "(*github.com/tailscale/goexpect.GExpect).Send", "send"), 2),   -- `Conn.Send` and `Conn.Close`
   (("nsx", "(*net/http.Client).PostForm", "send"), 1),
   (("nsx", "net/http.NewRequest", "assemble"), 1),
   (("nsx", "(*net/http.Client).Do", "send"), 1),
